@@ -120,6 +120,16 @@ func suiteC15(s *Suite, rng *Rng, tier string) {
 			cs[j] = rng.Bits(1 + rng.Intn(2100))
 		}
 		ctx, nonce := rng.Bits(1+rng.Intn(256)), rng.Bits(1+rng.Intn(128))
+		switch i % 8 {
+		case 1:
+			ctx = bi(0) // the boundary values of context and nonce are hashed like any other value
+		case 2:
+			ctx = bi(1)
+		case 3:
+			nonce = bi(0)
+		case 4:
+			ctx, nonce = bi(0), bi(0)
+		}
 		issig := rng.Bool()
 		out := gabi.VerifCreateChallenge(ctx, nonce, cs, issig)
 		s.Add(1504, "challenge", i < 40, L{ctx, nonce, cs, issig}, out)
